@@ -137,7 +137,9 @@ def install_builtins(I):
         return tuple(interp.iterate(x))
 
     @nf("dict")
-    def _dict(interp, x=None, **kw):
+    def _dict(interp, *pos, **kw):
+        # (positional-only source argument: `dict(x=1)` is a keyword entry named x)
+        x = pos[0] if len(pos) > 0 else None
         d = {}
         if x is not None:
             if isinstance(x, dict):
